@@ -59,8 +59,8 @@ type Node struct {
 	// faults
 	next      map[string][]Outcome // per kind: outcomes for upcoming calls (FIFO)
 	restFail  map[string]int       // action -> number of upcoming requests to fail
-	restHold map[string]*restHold // action -> hold the next request of that action (see HoldRest)
-	restDrop map[string]int // request pattern ("METHOD path?action" substring) -> number of upcoming product-originated requests whose connection is closed without an answer
+	restHold  map[string]*restHold // action -> hold the next request of that action (see HoldRest)
+	restDrop  map[string]int       // request pattern ("METHOD path?action" substring) -> number of upcoming product-originated requests whose connection is closed without an answer
 	pingFail  bool
 	StallFor  time.Duration
 	Log       []DPCall
